@@ -4,7 +4,7 @@ import CollectionsC.Proofs.PListBulk
 predicate, walks with a predecessor, `unlinkn` and the single-list operations. -/
 namespace CC.PSList
 open CC
-open CC.PList (Heap St Hdr PNode Cell nd setNext setData optSetNext upd idsOf dataOf nxt lastOr)
+open CC.PList (Heap St Hdr PNode Cell nd setNext setData optSetNext upd idsOf dataOf nxt lastOr live live_some live_none free_eq)
 open CC.PList
 
 /-- **singly linked segment**: the nodes `cs` are live and linked by `next` in this order; `n` is the `next` of the last
@@ -31,6 +31,16 @@ theorem SSeg_append {h : Heap} : ∀ {xs ys : List Cell} {n : Option Nat}, SSeg 
     constructor
     · rintro ⟨h1, h2, h3⟩; exact ⟨⟨h1, h2⟩, h3⟩
     · rintro ⟨⟨h1, h2⟩, h3⟩; exact ⟨h1, h2, h3⟩
+
+/-- every node of a segment is live -/
+theorem SSeg_live {h : Heap} : ∀ {cs : List Cell} {n : Option Nat}, SSeg h cs n → ∀ a, a ∈ idsOf cs → (h a).isSome = true
+  | [], _, _, _, ha => by cases ha
+  | b :: rest, n, hs, a, ha => by
+    rw [SSeg_cons] at hs
+    simp only [idsOf_cons, List.mem_cons] at ha
+    rcases ha with e | hm
+    · subst e; rw [hs.1]; rfl
+    · exact SSeg_live hs.2 a hm
 
 theorem SSeg_split {h : Heap} {pre post : List Cell} {a : Cell} {n : Option Nat} (hs : SSeg h (pre ++ a :: post) n) :
     SSeg h pre (some a.1) ∧ h a.1 = some ⟨a.2, nxt post n, none⟩ ∧ SSeg h post n := by
@@ -141,11 +151,28 @@ structure SKeeps (s s' : St) (l l' : Hdr) (cs cs' : List Cell) : Prop where
   mono : s.fresh ≤ s'.fresh
   bound : ∀ a, a ∈ idsOf cs' → a < s'.fresh
   frame : ∀ b, b ∉ idsOf cs → b < s.fresh → s'.heap b = s.heap b
+  dead : ∀ a, a ∈ idsOf cs → a ∉ idsOf cs' → s'.heap a = none
 
 theorem optSetNext_ne' (h : Heap) (o v : Option Nat) (b : Nat) (hne : ∀ x, o = some x → b ≠ x) : (optSetNext h o v) b = h b := by
   cases o with
   | none => rfl
   | some x => exact upd_ne _ _ _ _ (hne x rfl)
+
+/-- the predecessor handed to `unlinkn` is NULL or a live node -/
+theorem prev_live {h : Heap} {pre : List Cell} {n : Option Nat} (hs : SSeg h pre n) :
+    (lastOr pre none == none || live h (lastOr pre none)) = true := by
+  cases hq : lastOr pre none with
+  | none => rfl
+  | some q => simp only [live_some, SSeg_live hs q (lastOr_mem hq), Bool.or_true]
+
+/-- `list->tail` of a non-empty represented list is a live node -/
+theorem tail_live {h : Heap} {cs : List Cell} {n : Option Nat} (hs : SSeg h cs n) (hne : cs ≠ []) : live h (lastOr cs none) = true := by
+  cases hq : lastOr cs none with
+  | none =>
+    rcases eq_nil_or_snoc cs with e | ⟨ys, b, e⟩
+    · exact absurd e hne
+    · subst e; simp at hq
+  | some q => simp only [live_some, SSeg_live hs q (lastOr_mem hq)]
 
 /-- **`unlinkn(list, node, prev)`** with `prev` the predecessor of `node` -/
 theorem unlinkn_spec (s : St) (l : Hdr) (pre post : List Cell) (a : Cell) (m : Mem)
@@ -155,11 +182,11 @@ theorem unlinkn_spec (s : St) (l : Hdr) (pre post : List Cell) (a : Cell) (m : M
   obtain ⟨n1, n2, na1, na2, nd12, n12⟩ := nodup_append_cons r.nodup
   obtain ⟨s1, ha, s2⟩ := SSeg_split r.seg
   unfold unlinkn
-  simp only [nd_of ha]
+  simp only [nd_of ha, live_some, ha, Option.isSome_some, prev_live s1, Bool.and_self, Mem.check_true]
   have hsz := r.size
   have hhd := r.head
   have htl := r.tail
-  refine ⟨by first | trivial | rfl, ?_, ⟨⟨n12, ?_, ?_, ?_, ?_⟩, ?_, Nat.le_refl _, ?_, ?_⟩⟩
+  refine ⟨by first | trivial | rfl, ?_, ⟨⟨n12, ?_, ?_, ?_, ?_⟩, ?_, Nat.le_refl _, ?_, ?_, ?_⟩⟩
   · split <;> split <;> rfl
   · rw [SSeg_append]
     constructor
@@ -186,5 +213,14 @@ theorem unlinkn_spec (s : St) (l : Hdr) (pre post : List Cell) (a : Cell) (m : M
     have hba : b ≠ a.1 := fun e => hnb (by simp [e])
     rw [free_ne _ _ _ hba]
     exact optSetNext_ne' _ _ _ _ (fun x hx e => hnb (by have := lastOr_mem hx; simp [e, this]))
+  · intro a' ha' hna'
+    have e : a' = a.1 := by
+      simp only [idsOf_append, idsOf_cons, List.mem_append, List.mem_cons, not_or] at ha' hna'
+      rcases ha' with h | h | h
+      · exact absurd h hna'.1
+      · exact h
+      · exact absurd h hna'.2
+    subst e
+    exact free_eq _ _
 
 end CC.PSList
